@@ -7,6 +7,7 @@ import (
 	"fmt"
 	"io"
 	"math/rand"
+	"strings"
 
 	"filippo.io/age"
 	"filippo.io/age/armor"
@@ -342,7 +343,7 @@ func (m *monitor) encCase(ci int, c encCase, segs []segSpec) {
 	base := encryptSeg(label, pt, c.armored, recips, nil, true)
 	r.Eval(1)
 	if base.fail != "" && base.out == nil {
-		m.encFailure(c, fm, "single", base, replay("single", []int{c.length}))
+		m.encFailure(c, fm, "seg=single", base, replay("single", []int{c.length}))
 		return
 	}
 	hdrEnd := refage.HeaderEnd(base.bin)
@@ -351,7 +352,7 @@ func (m *monitor) encCase(ci int, c encCase, segs []segSpec) {
 		return
 	}
 	hdr16 := hdrEnd + 16
-	m.checkSnaps(c, fm, "single", base, hdr16, replay("single", []int{c.length}))
+	m.checkSnaps(c, fm, "seg=single", base, hdr16, replay("single", []int{c.length}))
 	// the baseline must be a file for this plaintext (sanity of the oracle's
 	// reference point; judged by the independent implementation)
 	if len(c.list) > 0 {
@@ -380,10 +381,10 @@ func (m *monitor) encCase(ci int, c encCase, segs []segSpec) {
 		r.Count("write_calls_checked", int64(len(er.snaps)))
 		rp := replay(sg.name, sizes)
 		if er.fail != "" {
-			m.encFailure(c, fm, segClass, er, rp)
+			m.encFailure(c, fm, "seg="+segClass, er, rp)
 			continue
 		}
-		m.checkSnaps(c, fm, segClass, er, hdr16, rp)
+		m.checkSnaps(c, fm, "seg="+segClass, er, hdr16, rp)
 		compared++
 		if bytes.Equal(er.out, base.out) {
 			identical++
@@ -394,9 +395,11 @@ func (m *monitor) encCase(ci int, c encCase, segs []segSpec) {
 					c.name(), sg.name, len(sizes), len(er.out), len(base.out), d), rp)
 		}
 	}
+	hc, hi := m.handovers(c, fm, label, pt, recips, base, hdr16, replay)
 	h := sha256.Sum256(base.out)
 	r.SampleN("enc-"+fm, 2, map[string]any{"case": c.name(), "tape_label": label, "ciphertext_bytes": len(base.out),
-		"ciphertext_sha256_prefix": hex.EncodeToString(h[:8]), "segmentations_compared_with_single_write": compared, "byte_identical": identical})
+		"ciphertext_sha256_prefix": hex.EncodeToString(h[:8]), "segmentations_compared_with_single_write": compared, "byte_identical": identical,
+		"hand_over_modes_compared_with_single_write": hc, "hand_over_byte_identical": hi})
 }
 
 func (m *monitor) encFailure(c encCase, fm, seg string, er *encRun, rp map[string]any) {
@@ -404,7 +407,10 @@ func (m *monitor) encFailure(c encCase, fm, seg string, er *encRun, rp map[strin
 	if len(er.fail) > 6 && er.fail[:6] == "Write " {
 		kind = "write-return"
 	}
-	m.r.Violate(fmt.Sprintf("%s:%s/seg=%s/%s", kind, fm, seg, lenClass(c.length)), c.name()+" segmentation "+seg+": "+er.fail, rp)
+	if strings.Contains(er.fail, "reported") && strings.Contains(er.fail, "with nil error") {
+		kind = "copy-return"
+	}
+	m.r.Violate(fmt.Sprintf("%s:%s/%s/%s", kind, fm, seg, lenClass(c.length)), c.name()+" "+seg+": "+er.fail, rp)
 }
 
 // checkSnaps applies the hold-back bound to every observed Write.
@@ -424,8 +430,8 @@ func (m *monitor) checkSnaps(c encCase, fm, seg string, er *encRun, hdr16 int, r
 			r.Count("holdback_checks_binding", 1)
 		}
 		if held > chunk {
-			r.Violate(fmt.Sprintf("holdback:%s/seg=%s", fm, seg),
-				fmt.Sprintf("%s segmentation %s: after Write #%d, %d plaintext bytes were written but only %d complete chunks (%d bytes) reached the destination: %d bytes held back (> 65536)",
+			r.Violate(fmt.Sprintf("holdback:%s/%s", fm, seg),
+				fmt.Sprintf("%s %s: at observation #%d, %d plaintext bytes had been handed over but only %d complete chunks (%d bytes) reached the destination: %d bytes held back (> 65536)",
 					c.name(), seg, i, s.written, chunks, s.bin, held), rp)
 			return
 		}
@@ -433,8 +439,8 @@ func (m *monitor) checkSnaps(c encCase, fm, seg string, er *encRun, hdr16 int, r
 			lag := s.bin - decodable(s.text)
 			maxInto(&m.maxArmorLag, int64(lag))
 			if lag > 48 {
-				r.Violate(fmt.Sprintf("armor-holdback:seg=%s", seg),
-					fmt.Sprintf("%s segmentation %s: after Write #%d the armor writer had taken %d bytes but only %d are represented in the %d text bytes at the destination",
+				r.Violate(fmt.Sprintf("armor-holdback:%s", seg),
+					fmt.Sprintf("%s %s: at observation #%d the armor writer had taken %d bytes but only %d are represented in the %d text bytes at the destination",
 						c.name(), seg, i, s.bin, decodable(s.text), s.text), rp)
 				return
 			}
